@@ -35,15 +35,22 @@ only used for the C05 clauses, never for the symmetric comparison.
 
 DEHB: the main DEHB catalogue uses as many brackets per iteration as there are rungs and lets a job fail only if its
 rung keeps at least as many survivors as the next rung has slots and three jobs have already succeeded.  Outside this
-regime the pinned tree does not serve every request for work; so that these discrepancies do not mask anything else
-each has its own clause, decided from the reference state at the moment of the request (not from the outcome):
-  * ``dehb-suggest-returns-work-when-rung-below-has-too-few-survivors`` / ``dehb-suggest-does-not-raise-when-...``:
-    the job is for rung r > 0 of a bracket whose rung r - 1 has fewer survivors than rung r has slots (suggest answers
-    None, which makes the Tuner stop the experiment, or raises KeyError(None) in the DE mutation),
-  * ``dehb-suggest-is-served-when-jobs-failed-before-three-succeeded`` (AssertionError "Cannot compose parent pool"),
+regime the pinned tree does not serve every request for work.  Each of these discrepancies has its own clause, and a
+violation is filed under it ONLY if state (decided from the reference at the moment of the request) AND failure
+signature (exception type, function that raised, bracket position) are exactly those of the pinned tree:
+  * ``dehb-suggest-returns-work-when-rung-below-has-too-few-survivors``: FIRST bracket, job of rung r > 0 whose rung
+    r - 1 has fewer survivors than rung r has slots; suggest RETURNS None (the Tuner then stops the experiment),
+  * ``dehb-suggest-does-not-raise-when-rung-below-has-too-few-survivors``: same state in a LATER bracket; suggest
+    raises KeyError(None) in ``_de_mutation`` (failed slot of the top list, trial_id None, chosen as DE parent),
+  * ``dehb-suggest-is-served-when-jobs-failed-before-three-succeeded``: later bracket, fewer than three jobs succeeded
+    and at least one failed; AssertionError "Cannot compose parent pool ..." in ``_mutation``,
   * ``dehb-suggest-is-served-when-fewer-brackets-than-rungs-are-configured``: num_brackets_per_iteration < number of
-    rungs (IndexError, or an endless loop in trial_id_from_parent_slot; a SIGALRM watchdog of 5 s ends the call).
-Everything else -- also for DEHB -- is judged by ``request-for-work-is-served-without-blocking``.
+    rungs, later bracket; IndexError in ``trial_id_from_parent_slot`` or an endless loop there (a SIGALRM watchdog of
+    5 s ends the call).
+Any other failure is ordinary: an exception in the first bracket in the too-few-survivors state goes to
+``dehb-first-bracket-suggest-does-not-raise-when-rung-below-has-too-few-survivors`` (the pinned tree answers None there
+and carries on), everything else (other exception type, other function, other position, None elsewhere) to
+``request-for-work-is-served-without-blocking``.
 
 Bounded stand-in, never counted as proved.
 """
@@ -80,6 +87,7 @@ CL_DEHB_NONE = "dehb-suggest-returns-work-when-rung-below-has-too-few-survivors"
 CL_DEHB_RAISE = "dehb-suggest-does-not-raise-when-rung-below-has-too-few-survivors"
 CL_DEHB_HEAVY = "dehb-suggest-is-served-when-jobs-failed-before-three-succeeded"
 CL_DEHB_FEWBR = "dehb-suggest-is-served-when-fewer-brackets-than-rungs-are-configured"
+CL_DEHB_FIRST = "dehb-first-bracket-suggest-does-not-raise-when-rung-below-has-too-few-survivors"
 CL_SYM_TOP = "min-max-symmetry-get-top-list"
 CL_SYM_BRK = "min-max-symmetry-sync-bracket-and-manager"
 CL_SYM_SCHED = "min-max-symmetry-sync-hyperband-scheduler"
@@ -119,6 +127,7 @@ CLAUSES = [
     CL_DEHB_RAISE,
     CL_DEHB_HEAVY,
     CL_DEHB_FEWBR,
+    CL_DEHB_FIRST,
     CL_SYM_TOP,
     CL_SYM_BRK,
     CL_SYM_SCHED,
@@ -171,6 +180,22 @@ def _call_with_watchdog(fn, seconds=5.0):
     finally:
         signal.setitimer(signal.ITIMER_REAL, 0.0)
         signal.signal(signal.SIGALRM, old)
+
+
+def _exc_signature(exc):
+    """(type name, name of the innermost function that raised) -- for _Hang: the function that was interrupted"""
+    if exc is None:
+        return None
+    names = []
+    tb = exc.__traceback__
+    while tb is not None:
+        names.append(tb.tb_frame.f_code.co_name)
+        tb = tb.tb_next
+    if isinstance(exc, _Hang):
+        names = [n for n in names if n != "handler"]
+        if "trial_id_from_parent_slot" in names:  # the endless loop may be interrupted inside a callee
+            names = names[: names.index("trial_id_from_parent_slot") + 1]
+    return (type(exc).__name__, names[-1] if names else None)
 
 
 class _Mon:
@@ -781,16 +806,43 @@ def _run_scheduler(M, ctx, make, systems, mode, sign, W, choices, fails, values,
                 bid, r, level, sidx, stid = jobs[-1]
                 few = dehb and ref.few_survivors(bid, r)
                 det = dict(step=step, job={"bracket": bid, "rung_index": r, "level": level, "slot_index": sidx}, bracket=ref.describe(bid))
-                if fewbr:
-                    M.check(CL_DEHB_FEWBR, raised is None and sugg is not None, ctx, raised=repr(raised)[:300], suggestion=repr(sugg)[:100], reason="suggest raises / hangs / answers None (trial_id_from_parent_slot: bracket_delta = num_brackets - rung_index <= 0)", **det)
-                elif few:
-                    M.check(CL_DEHB_RAISE, raised is None, ctx, raised=repr(raised)[:300], reason="suggest raises (KeyError(None): the top list of the rung below contains failed slots whose trial_id is None)", **det)
-                    if raised is None:
-                        M.check(CL_DEHB_NONE, sugg is not None, ctx, reason="suggest answers None (the Tuner stops the experiment) because a slot of the next rung would have to be filled with a failed trial", **det)
-                elif dehb and nsucc < 3 and stats["failed"] > 0:
-                    M.check(CL_DEHB_HEAVY, raised is None and sugg is not None, ctx, raised=repr(raised)[:300], suggestion=repr(sugg)[:100], reason="suggest raises / answers None: DEHB cannot compose a parent pool of three trials", succeeded_so_far=nsucc, failed_so_far=stats["failed"], **det)
-                else:
-                    M.check(CL_SERVED, raised is None and sugg is not None, ctx, raised=repr(raised)[:300], suggestion=repr(sugg)[:100], reason="suggest raised or returned None", **det)
+                bad = raised is not None or sugg is None
+                sig = _exc_signature(raised)
+                later = isinstance(bid, (int, np.integer)) and bid > 0
+                # the four known-open clauses: one exact failure signature each, observed on the pinned tree
+                known = None
+                if dehb and not bad:
+                    pass
+                elif dehb and fewbr and later and sig in (("IndexError", "trial_id_from_parent_slot"), ("_Hang", "trial_id_from_parent_slot")):
+                    known = CL_DEHB_FEWBR  # bracket_delta = num_brackets - rung_index <= 0
+                elif dehb and not fewbr and few and not later and raised is None:
+                    known = CL_DEHB_NONE  # first bracket: the slot is marked failed, suggest answers None
+                elif dehb and not fewbr and few and later and sig == ("KeyError", "_de_mutation") and raised.args == (None,):
+                    known = CL_DEHB_RAISE  # later bracket: failed slot (trial_id None) of the top list chosen as DE parent
+                elif dehb and not fewbr and later and nsucc < 3 and stats["failed"] > 0 and sig == ("AssertionError", "_mutation") and "Cannot compose parent pool" in str(raised):
+                    known = CL_DEHB_HEAVY
+                # every request in the state of a known-open clause counts as a check of it
+                if dehb and fewbr and later:
+                    M.counts[CL_DEHB_FEWBR] += 1
+                if dehb and not fewbr and few and not later:
+                    M.counts[CL_DEHB_NONE] += 1
+                    M.counts[CL_DEHB_FIRST] += 1
+                if dehb and not fewbr and few and later:
+                    M.counts[CL_DEHB_RAISE] += 1
+                if dehb and not fewbr and later and nsucc < 3 and stats["failed"] > 0:
+                    M.counts[CL_DEHB_HEAVY] += 1
+                M.counts[CL_SERVED] += 1
+                if bad:
+                    if known is not None:
+                        clause = known
+                    elif dehb and not fewbr and few and not later and raised is not None:
+                        clause = CL_DEHB_FIRST  # ordinary: the pinned tree answers None here, it never raises
+                    else:
+                        clause = CL_SERVED  # ordinary: any other exception type / position / None
+                    M.counts[clause] -= 1
+                    if clause != CL_SERVED:
+                        M.counts[CL_SERVED] -= 1
+                    M.check(clause, False, ctx, raised=repr(raised)[:300], raised_in=None if sig is None else sig[1], suggestion=repr(sugg)[:100], known_open_signature=known is not None, state={"few_survivors_in_rung_below": bool(few), "first_bracket": not later, "fewer_brackets_than_rungs": bool(fewbr), "succeeded_so_far": nsucc, "failed_so_far": stats["failed"]}, reason="suggest raised / hung / returned None", **det)
                 if raised is not None:
                     trace.append(("raise", type(raised).__name__))
                     raise _Abort
